@@ -561,6 +561,26 @@ ada_really_inline bool url_aggregator::parse_host(std::string_view input) {
     is_valid = true;
     return true;
   }
+  // If upper-case ASCII letters are all that stands in the way (value 2 of the
+  // table: no forbidden code point was seen), lower-case a copy exactly as
+  // ada::url::parse_host does. Going through to_ascii instead made the two URL
+  // types disagree: the IDNA conversion refuses inputs above 16384 bytes, so
+  // "http://0X<16384 zeros>1/" was an IPv4 address for ada::url and a failure
+  // for ada::url_aggregator and ada::can_parse.
+  if (is_forbidden_or_upper == 2) {
+    std::string lowered(input);
+    unicode::to_lower_ascii(lowered.data(), lowered.size());
+    if (lowered.find(xn_dash) == std::string::npos) {
+      update_base_hostname(lowered);
+      if (checkers::is_ipv4(get_hostname())) {
+        ada_log("parse_host fast path ipv4");
+        return parse_ipv4(get_hostname(), true);
+      }
+      ada_log("parse_host fast path ", get_hostname());
+      is_valid = true;
+      return true;
+    }
+  }
   // We have encountered at least one forbidden code point or the input contains
   // 'xn-' (case insensitive), so we need to call 'to_ascii' to perform the full
   // conversion.
